@@ -25,7 +25,8 @@ class Task:
     """
 
     def __init__(self, name, harness, args=(), tier='B', kind='sym', max_paths=3000, deadline_s=240,
-                 note='', expect_fail=(), functions=(), fork_timeout_ms=2000, vc_timeout_ms=10000):
+                 note='', expect_fail=(), functions=(), fork_timeout_ms=4000, vc_timeout_ms=40000):
+        # budgets are wall-clock and sized for a machine whose 16 cores are all busy (observed: a 4 s query needs > 10 s there); a verdict must not flip with load
         self.name = name
         self.harness = harness
         self.args = tuple(args)
@@ -129,6 +130,8 @@ def _run_task_inner(i, t, t0):
                        backends={'cpython': n}, external={})
         out['wall_s'] = round(time.time() - t0, 3)
         return i, out
+    except _TaskTimeout:
+        raise
     except BaseException as e:
         return i, dict(paths=0, infeasible=0, checks={}, errors=['task crashed: %s: %s\n%s' % (
             type(e).__name__, e, traceback.format_exc(limit=-8))], solver_s=0, queries=0, truncated=False,
@@ -258,7 +261,9 @@ def _genuine_failure(name, c):
         return True
     for w in c.get('witnesses', []):
         files = re.findall(r'File "([^"]+)"', str(w.get('detail', '')))
-        if files and ('/evidence/mutants/' in files[-1] or files[-1].startswith(REPO + '/')):
+        # raised inside the mutated code, or at a call from the harness into it (e.g. a TypeError at call binding); an exception raised by the
+        # checker's own engine (symrun/) is an engine error, not a kill
+        if files and '/symrun/' not in files[-1]:
             return True
     return False
 
@@ -355,12 +360,12 @@ def main(argv=None):
         external.update(r.get('external', {}))
         if t.kind == 'rt':
             rt_cases += r['paths']
-        if t.tier == 'U' and r['errors'] and all(str(e).startswith('Unbound:') for e in r['errors']):
-            # the CONTRACT of an unbounded-tier task no longer binds to the function's current text (renamed loop-carried local, rewritten loop header).
-            # That is not evidence about the code: the obligation is counted as NOT discharged and reported, and the verdict is left to the bounded and
-            # run-time tiers, which execute the same function whole and do not depend on its local names.
+        if r['errors'] and all(str(e).startswith('Unbound:') for e in r['errors']):
+            # the loop CONTRACT of a cut-loop task no longer binds to the function's current text (renamed loop-carried local, rewritten loop header,
+            # new loop variable).  That is not evidence about the code: the obligation is counted as NOT discharged and reported, and the verdict is
+            # left to the tasks that execute the same function whole (bounded skeletons, run-time tier) and do not depend on its local names.
             unbound.append('%s: %s' % (t.name, r['errors'][0]))
-            n_obl['U'] += 1
+            n_obl[t.tier] += 1
         else:
             for e in r['errors']:
                 errors.append('%s: %s' % (t.name, e))
@@ -485,7 +490,7 @@ def main(argv=None):
         seen.add(key)
         print('KNOWN-FINDING: property=%s %s [%s; obligation %s; replay %s]' % (prop, k.get('what'), k.get('id'), r['obligation'], r['path']))
     for u in unbound[:10]:
-        print('UNBOUND-CONTRACT (tier U obligation not discharged; bounded and run-time tiers decide): %s' % u[:400])
+        print('UNBOUND-CONTRACT (cut-loop obligation not discharged; the whole-function tasks decide): %s' % u[:400])
     for v in violations:
         print('VIOLATION property=%s replay=%s obligation=%s task=%s%s' % (
             prop, v['path'], v['obligation'], v['task'], '' if v['confirmed'] else ' no-failing-input-found'))
